@@ -239,6 +239,157 @@ Proof.
     rewrite V4, V3, V2, Vd. field. repeat split; assumption.
 Qed.
 
+(* ---------------------------------------------------------------- no range hypotheses, for the table *)
+(* within k x :  2^-k <= |x| <= 2^k *)
+Definition within (k : Z) (x : R) : Prop := bpow radix2 (- k) <= Rabs x <= bpow radix2 k.
+
+Lemma within_mul : forall a b x y, within a x -> within b y -> within (a + b) (x * y).
+Proof.
+  intros a b x y [X1 X2] [Y1 Y2]. unfold within. rewrite Rabs_mult.
+  replace (- (a + b))%Z with (- a + - b)%Z by lia. rewrite !bpow_plus.
+  pose proof (bpow_gt_0 radix2 (- a)). pose proof (bpow_gt_0 radix2 (- b)).
+  split; apply Rmult_le_compat; lra.
+Qed.
+
+Lemma within_inv : forall a x, within a x -> within a (/ x).
+Proof.
+  intros a x [X1 X2]. pose proof (bpow_gt_0 radix2 (- a)) as P.
+  assert (Nx : x <> 0) by (intros Z; rewrite Z, Rabs_R0 in X1; lra).
+  unfold within. rewrite Rabs_inv. split.
+  - rewrite bpow_opp. apply Rinv_le_contravar; lra.
+  - replace (bpow radix2 a) with (/ bpow radix2 (- a)) by (rewrite bpow_opp, Rinv_inv; reflexivity).
+    apply Rinv_le_contravar; lra.
+Qed.
+
+Lemma within_step : forall a b k to_base c x, within a x -> within b c ->
+  within (a + b) (step_R k to_base c x).
+Proof.
+  intros a b k to_base c x X C. unfold step_R. destruct k; [|destruct to_base].
+  - unfold Rdiv. rewrite Z.add_comm. apply within_mul; [exact C|now apply within_inv].
+  - now apply within_mul.
+  - unfold Rdiv. apply within_mul; [exact X|now apply within_inv].
+Qed.
+
+Lemma within_in_range : forall k x, (k <= 1022)%Z -> within k x -> in_range x.
+Proof.
+  intros k x Hk [X1 X2]. unfold in_range. split.
+  - eapply Rle_trans; [|exact X1]. apply bpow_le. lia.
+  - eapply Rle_trans; [exact X2|]. apply bpow_le. lia.
+Qed.
+
+(* a correctly rounded result stays within a factor 2 of the exact one *)
+Lemma within_rounded : forall k x e, Rabs e <= u53 -> within k x -> within (k + 1) (x * (1 + e)).
+Proof.
+  intros k x e He X. replace (k + 1)%Z with (k + 1)%Z by lia. apply within_mul; [exact X|].
+  pose proof u53_lt1 as U. apply Rabs_le_inv in He.
+  assert (E : u53 = / 9007199254740992).
+  { unfold u53. change (-53 + 1)%Z with (-52)%Z. change (bpow radix2 (-52)) with (/ 4503599627370496). lra. }
+  unfold within. change (bpow radix2 (- (1))) with (/ 2). change (bpow radix2 1) with 2.
+  rewrite Rabs_pos_eq by lra. lra.
+Qed.
+
+(* magnitude of a coefficient from its exponent and bit length: decidable *)
+Definition coef_mag_ok (c : num) : bool :=
+  match c with
+  | S754_finite _ m e => ((-100 <=? e + Z.log2 (Zpos m)) && (e + Z.log2 (Zpos m) <=? 100))%Z%bool
+  | _ => false
+  end.
+
+Lemma coef_mag_within : forall c, coef_mag_ok c = true -> within 101 (Rv c).
+Proof.
+  intros [| | |s m e] H; try discriminate H. cbn [coef_mag_ok] in H.
+  apply andb_true_iff in H. destruct H as [H1 H2]. apply Z.leb_le in H1. apply Z.leb_le in H2.
+  destruct (Z.log2_spec (Zpos m) ltac:(lia)) as [L1 L2]. pose proof (Z.log2_nonneg (Zpos m)) as L0.
+  set (l := Z.log2 (Zpos m)) in *.
+  apply IZR_le in L1. apply IZR_lt in L2.
+  rewrite (IZR_Zpower radix2) in L1, L2 by lia.
+  unfold within, Rv. cbn [SF2R]. rewrite <- F2R_Zabs, abs_cond_Zopp. unfold F2R. cbn [Fnum Fexp Z.abs].
+  pose proof (bpow_gt_0 radix2 e) as Pe. split.
+  - apply Rle_trans with (bpow radix2 l * bpow radix2 e).
+    + rewrite <- bpow_plus. apply bpow_le. lia.
+    + apply Rmult_le_compat_r; lra.
+  - apply Rle_trans with (bpow radix2 (Z.succ l) * bpow radix2 e).
+    + apply Rmult_le_compat_r; lra.
+    + rewrite <- bpow_plus. apply bpow_le. lia.
+Qed.
+
+Lemma table_coefficients_mag_ok :
+  forallb (fun u => match coef_of u with Some c => coef_mag_ok (num_of_bits (l_bits c)) | None => true end)
+          all_units = true.
+Proof. vm_compute. reflexivity. Qed.
+
+Lemma kind_coef_coef_of : forall u k l, kind_coef u = Some (k, l) -> coef_of u = Some l.
+Proof.
+  intros u k l H. unfold kind_coef in H. unfold coef_of.
+  destruct (u_conv u); try discriminate H; injection H as _ <-; reflexivity.
+Qed.
+
+Lemma table_coef_facts : forall u k l, In u all_units -> kind_coef u = Some (k, l) ->
+  fin (num_of_bits (l_bits l)) /\ within 101 (Rv (num_of_bits (l_bits l))).
+Proof.
+  intros u k l Hu K. pose proof (kind_coef_coef_of u k l K) as C. split.
+  - exact (table_coefficients_finite u l Hu C).
+  - apply coef_mag_within. pose proof table_coefficients_mag_ok as H. rewrite forallb_forall in H.
+    specialize (H u Hu). now rewrite C in H.
+Qed.
+
+(* THERE AND BACK, no range hypotheses: every pair of linear / reciprocal units of the table, every valid finite
+   double v with 2^-400 <= |v| <= 2^400 *)
+Theorem there_and_back_float_table : forall ua ub ka kb la lb v,
+  In ua all_units -> In ub all_units ->
+  kind_coef ua = Some (ka, la) -> kind_coef ub = Some (kb, lb) ->
+  fin v -> within 400 (Rv v) ->
+  let r2 := through_base fl v ua ub in
+  let r4 := through_base fl r2 ub ua in
+  Rabs (Rv r4 - Rv v) <= ((1 + u53') * (1 + u53') * (1 + u53') * (1 + u53') - 1) * Rabs (Rv v).
+Proof.
+  intros ua ub ka kb la lb v Ia Ib Ka Kb Fv Wv r2 r4.
+  destruct (table_coef_facts ua ka la Ia Ka) as [Fa Wa].
+  destruct (table_coef_facts ub kb lb Ib Kb) as [Fb Wb].
+  set (ca := num_of_bits (l_bits la)) in *. set (cb := num_of_bits (l_bits lb)) in *.
+  (* track the magnitudes through the four steps *)
+  pose proof (within_step 400 101 ka true _ _ Wv Wa) as W1.
+  destruct (step_rel ua ka la v true Ka Fv Fa (within_in_range (400 + 101) _ ltac:(lia) W1)) as (e1 & He1 & F1 & V1).
+  fold ca in V1.
+  assert (X1 : within 502 (Rv (step_fl true ua v))) by (rewrite V1; now apply (within_rounded 501)).
+  pose proof (within_step 502 101 kb false _ _ X1 Wb) as W2.
+  destruct (step_rel ub kb lb _ false Kb F1 Fb (within_in_range (502 + 101) _ ltac:(lia) W2)) as (e2 & He2 & F2 & V2).
+  fold cb in V2.
+  assert (X2 : within 604 (Rv (step_fl false ub (step_fl true ua v)))) by (rewrite V2; now apply (within_rounded 603)).
+  pose proof (within_step 604 101 kb true _ _ X2 Wb) as W3.
+  destruct (step_rel ub kb lb _ true Kb F2 Fb (within_in_range (604 + 101) _ ltac:(lia) W3)) as (e3 & He3 & F3 & V3).
+  fold cb in V3.
+  assert (X3 : within 706 (Rv (step_fl true ub (step_fl false ub (step_fl true ua v)))))
+    by (rewrite V3; now apply (within_rounded 705)).
+  pose proof (within_step 706 101 ka false _ _ X3 Wa) as W4.
+  destruct (there_and_back_float_lin_recip ua ub ka kb la lb v Ka Kb Fv Fa Fb
+              (within_in_range (400 + 101) _ ltac:(lia) W1) (within_in_range (502 + 101) _ ltac:(lia) W2)
+              (within_in_range (604 + 101) _ ltac:(lia) W3) (within_in_range (706 + 101) _ ltac:(lia) W4))
+    as (d1 & d2 & d3 & d4 & _ & _ & _ & _ & _ & B).
+  exact B.
+Qed.
+
+Lemma within_mono : forall a b x, (a <= b)%Z -> within a x -> within b x.
+Proof.
+  intros a b x H [X1 X2]. split.
+  - eapply Rle_trans; [|exact X1]. apply bpow_le. lia.
+  - eapply Rle_trans; [exact X2|]. apply bpow_le. lia.
+Qed.
+
+(* the hypotheses of there_and_back_float_table are satisfiable: the table has a reciprocal and a linear unit of
+   one category (miles per gallon / liters per 100 kilometers), and v = 30.0 is in range *)
+Lemma table_theorem_hypotheses_satisfiable :
+  existsb (fun ua => existsb (fun ub =>
+     match kind_coef ua, kind_coef ub with
+     | Some (true, _), Some (false, _) => String.eqb (u_cat ua) (u_cat ub)
+     | _, _ => false
+     end) all_units) all_units = true /\
+  fin (num_of_bits 0x403e000000000000) /\ within 400 (Rv (num_of_bits 0x403e000000000000)).
+Proof.
+  split; [vm_compute; reflexivity|]. split; [vm_compute; reflexivity|].
+  apply (within_mono 101); [lia|]. apply coef_mag_within. vm_compute. reflexivity.
+Qed.
+
 (* the table: which units are reciprocal (so that the theorem's scope is visible) *)
 Definition reciprocal_units : list string :=
   map (fun u => hd ""%string (u_ids u))
